@@ -33,16 +33,17 @@
                             so two slots suffice (invariant NoStaleClash).
      pending, batch         _EventQueue._queue (deque) and _priority_queue (heap);
                             len(manager._queue) = Len(pending) + Len(batch).  An item is
-                            <<thread, n, group bit>>
-     fresh, bit             _EventQueue._counter, abstracted.  append() increments the
-                            counter on one line and stamps the item with the counter's
-                            CURRENT value on the next; the loop's own fire() does that
-                            without the lock, so the stamp of its generate_events and the
-                            stamp of a foreign event can be equal (the heap then pops the two
-                            in either order).  Stamps never decrease along the deque, so
-                            equal stamps are adjacent: `fresh` says whether the counter was
-                            incremented since the last append, items of equal stamp carry
-                            the same `bit`, neighbours of different stamp a different one.
+                            <<thread, n, stamp>>
+     ctr                    _EventQueue._counter.  append() increments the counter on one
+                            line and stamps the item with the counter's CURRENT value on the
+                            next; the heap pops the smallest stamp first (priorities are
+                            equal).  The loop's own fire() appends without the lock, so the
+                            stamp of its generate_events and the stamp of a foreign event can
+                            be equal: the heap then pops the two in either order (D_pop
+                            chooses).  Only the order of stamps matters, so an increment that
+                            finds the queue empty restarts at 1 in one step (this keeps the
+                            state space finite; the broken variant "counter_reset" does the
+                            same in TWO steps - check, then reset - and is not normalised).
      flag                   fallback: FallBackGenerator._continue (0/1);
                             poller: number of bytes in the control pipe
      dispatched             log of dispatched foreign events (ghost)
@@ -69,6 +70,8 @@ CONSTANTS Firers,     \* set of strings, e.g. {"f1", "f2"}
    allowed by the configuration: they are variables that never change. *)
 UniformQuotas == {[f \in Firers |-> k] : k \in NFiresSet}
 AllQuotas == [Firers -> 0..MaxFires]
+(* every firer fires NFiresSet times, or one firer alone fires MaxFires times in a row *)
+MixedQuotas == UniformQuotas \cup {[f \in Firers |-> IF f = (CHOOSE g \in Firers : TRUE) THEN MaxFires ELSE 0]}
 
 None == 2             \* handling: nothing
 Ev   == 3             \* handling: an ordinary event
@@ -84,7 +87,8 @@ Mutants == {"none",
             "append_after_lock",    \* _fire appends after releasing the lock
             "no_qlen",              \* arming ignores len(self._queue)
             "resume_before_assign", \* reduce_time_left tests _time_left == 0 before assigning
-            "no_arm_lock"}          \* the dispatcher arms generate_events without the lock
+            "no_arm_lock",          \* the dispatcher arms generate_events without the lock
+            "counter_reset"}        \* dispatchEvents ends with `if not self._queue: self._counter = -1`
 
 ASSUME /\ Variants \subseteq {"fallback", "poller"} /\ Mutant \in Mutants
        /\ Timers \subseteq BOOLEAN /\ WithStop \in BOOLEAN /\ MaxFires \in Nat
@@ -101,7 +105,7 @@ variables
   timeLeft = [i \in {0, 1} |-> -1],
   geHandler = [i \in {0, 1} |-> "none"],
   pending = <<>>, batch = <<>>,
-  fresh = TRUE, bit = 0,
+  ctr = 0,
   flag = 0,
   dispatched = <<>>,
   appended = [f \in Threads |-> 0],
@@ -119,7 +123,7 @@ define {
                                      /\ \A k \in 1..quota[f] : <<f, k>> \in Range(dispatched)
   InFlight(f) == appended[f] > returned[f]
   (* the items the heap may pop next: those that share the smallest stamp *)
-  Lead == {k \in 1..Len(batch) : \A j \in 1..k : batch[j][3] = batch[1][3]}
+  Lead == {k \in 1..Len(batch) : \A j \in 1..Len(batch) : batch[j][3] >= batch[k][3]}
   Without(q, k) == [j \in 1..(Len(q) - 1) |-> IF j < k THEN q[j] ELSE q[j + 1]]
 }
 
@@ -130,17 +134,17 @@ macro Acquire(me) {
 macro Release() {
   lockOwner := IF lockDepth = 1 THEN "none" ELSE lockOwner || lockDepth := lockDepth - 1;
 }
-macro Enqueue(who, num) {
-  with (b = IF fresh THEN 1 - bit ELSE bit) {
-    pending := Append(pending, <<who, num, b>>);
-    bit := b;
-  };
-  fresh := FALSE;
+macro Inc() {                       \* self._counter += 1
+  ctr := IF QLen = 0 /\ Mutant # "counter_reset" THEN 1 ELSE ctr + 1;
 }
-macro EnqueueNew(who, num) {       \* increment and append in one step (broken variants only)
-  pending := Append(pending, <<who, num, 1 - bit>>);
-  bit := 1 - bit;
-  fresh := FALSE;
+macro Enqueue(who, num) {           \* self._queue.append((priority, self._counter, ...))
+  pending := Append(pending, <<who, num, ctr>>);
+}
+macro EnqueueNew(who, num) {        \* increment and append in one step (broken variants only)
+  with (c = IF QLen = 0 THEN 1 ELSE ctr + 1) {
+    pending := Append(pending, <<who, num, c>>);
+    ctr := c;
+  };
 }
 macro SetFlag() {
   flag := IF variant = "fallback" THEN 1 ELSE flag + 1;
@@ -172,7 +176,7 @@ T_cond:                                               \* run(): while self.runni
 T_run:                                                \* tick(): if self._running:
   if (running) {
 T_inc:                                                \* own-thread _fire, no lock: _EventQueue.append: self._counter += 1
-    fresh := TRUE;
+    Inc();
 T_fire:                                               \* self._queue.append((priority, self._counter, ...))
     with (ng = 1 - gen) {
       gen := ng;
@@ -239,10 +243,17 @@ P_drain:    flag := flag - 1;                         \* _read_ctrl(): one byte
       };
 D_clr: handling := None;                              \* self._currently_handling = None
       if (batch # <<>>) { goto D_pop }                \* while self._flush_batch > 0  (loop-local)
+      else if (Mutant = "counter_reset") { goto D_chk }
       else if (fade = 0) { goto T_cond } else if (fade < 4) { fade := fade + 1; goto T_run } else { goto Done };
   } else {
     if (fade = 0) { goto T_cond } else if (fade < 4) { fade := fade + 1; goto T_run } else { goto Done };
   };
+D_chk:                                                \* (variant, end of dispatchEvents) if not self._queue:
+  if (Len(pending) = 0) {
+D_rst: ctr := -1;                                     \*     self._counter = -1   - not atomic with the check
+  };
+D_end:
+  if (fade = 0) { goto T_cond } else if (fade < 4) { fade := fade + 1; goto T_run } else { goto Done };
 }
 
 fair process (firer \in Threads)
@@ -265,7 +276,7 @@ F_rdh:
     h := handling;                                    \* handling = self._currently_handling
 F_inc:
     if (Mutant \notin {"append_before_lock", "append_after_lock"}) {
-      fresh := TRUE;                                  \* _EventQueue.append: self._counter += 1
+      Inc();                                          \* _EventQueue.append: self._counter += 1
     };
 F_app:
     if (Mutant \notin {"append_before_lock", "append_after_lock"}) {
@@ -288,8 +299,8 @@ F_mapp: EnqueueNew(self, n);
 } *)
 \* BEGIN TRANSLATION
 VARIABLES pc, variant, timer, quota, lockOwner, lockDepth, running, handling, 
-          gen, timeLeft, geHandler, pending, batch, fresh, bit, flag, 
-          dispatched, appended, returned, stack
+          gen, timeLeft, geHandler, pending, batch, ctr, flag, dispatched, 
+          appended, returned, stack
 
 (* define statement *)
 QLen == Len(pending) + Len(batch)
@@ -303,15 +314,14 @@ AllDispatched == \A f \in Firers : /\ returned[f] = quota[f]
                                    /\ \A k \in 1..quota[f] : <<f, k>> \in Range(dispatched)
 InFlight(f) == appended[f] > returned[f]
 
-Lead == {k \in 1..Len(batch) : \A j \in 1..k : batch[j][3] = batch[1][3]}
+Lead == {k \in 1..Len(batch) : \A j \in 1..Len(batch) : batch[j][3] >= batch[k][3]}
 Without(q, k) == [j \in 1..(Len(q) - 1) |-> IF j < k THEN q[j] ELSE q[j + 1]]
 
 VARIABLES ri, rv, ev, rem, tl, g, fade, n, h
 
 vars == << pc, variant, timer, quota, lockOwner, lockDepth, running, handling, 
-           gen, timeLeft, geHandler, pending, batch, fresh, bit, flag, 
-           dispatched, appended, returned, stack, ri, rv, ev, rem, tl, g, 
-           fade, n, h >>
+           gen, timeLeft, geHandler, pending, batch, ctr, flag, dispatched, 
+           appended, returned, stack, ri, rv, ev, rem, tl, g, fade, n, h >>
 
 ProcSet == {"loop"} \cup (Threads)
 
@@ -328,8 +338,7 @@ Init == (* Global variables *)
         /\ geHandler = [i \in {0, 1} |-> "none"]
         /\ pending = <<>>
         /\ batch = <<>>
-        /\ fresh = TRUE
-        /\ bit = 0
+        /\ ctr = 0
         /\ flag = 0
         /\ dispatched = <<>>
         /\ appended = [f \in Threads |-> 0]
@@ -358,9 +367,9 @@ R_acq(self) == /\ pc[self] = "R_acq"
                      THEN /\ pc' = [pc EXCEPT ![self] = "R_rel"]
                      ELSE /\ pc' = [pc EXCEPT ![self] = "R_set"]
                /\ UNCHANGED << variant, timer, quota, running, handling, gen, 
-                               timeLeft, geHandler, pending, batch, fresh, bit, 
-                               flag, dispatched, appended, returned, stack, ri, 
-                               rv, ev, rem, tl, g, fade, n, h >>
+                               timeLeft, geHandler, pending, batch, ctr, flag, 
+                               dispatched, appended, returned, stack, ri, rv, 
+                               ev, rem, tl, g, fade, n, h >>
 
 R_set(self) == /\ pc[self] = "R_set"
                /\ IF Mutant = "resume_before_assign"
@@ -375,9 +384,8 @@ R_set(self) == /\ pc[self] = "R_set"
                           /\ flag' = flag
                /\ UNCHANGED << variant, timer, quota, lockOwner, lockDepth, 
                                running, handling, gen, geHandler, pending, 
-                               batch, fresh, bit, dispatched, appended, 
-                               returned, stack, ri, rv, ev, rem, tl, g, fade, 
-                               n, h >>
+                               batch, ctr, dispatched, appended, returned, 
+                               stack, ri, rv, ev, rem, tl, g, fade, n, h >>
 
 R_hand(self) == /\ pc[self] = "R_hand"
                 /\ IF timeLeft[ri[self]] = 0 /\ geHandler[ri[self]] = "idle"
@@ -385,7 +393,7 @@ R_hand(self) == /\ pc[self] = "R_hand"
                       ELSE /\ pc' = [pc EXCEPT ![self] = "R_rel"]
                 /\ UNCHANGED << variant, timer, quota, lockOwner, lockDepth, 
                                 running, handling, gen, timeLeft, geHandler, 
-                                pending, batch, fresh, bit, flag, dispatched, 
+                                pending, batch, ctr, flag, dispatched, 
                                 appended, returned, stack, ri, rv, ev, rem, tl, 
                                 g, fade, n, h >>
 
@@ -394,9 +402,9 @@ R_res(self) == /\ pc[self] = "R_res"
                /\ pc' = [pc EXCEPT ![self] = "R_rel"]
                /\ UNCHANGED << variant, timer, quota, lockOwner, lockDepth, 
                                running, handling, gen, timeLeft, geHandler, 
-                               pending, batch, fresh, bit, dispatched, 
-                               appended, returned, stack, ri, rv, ev, rem, tl, 
-                               g, fade, n, h >>
+                               pending, batch, ctr, dispatched, appended, 
+                               returned, stack, ri, rv, ev, rem, tl, g, fade, 
+                               n, h >>
 
 R_rel(self) == /\ pc[self] = "R_rel"
                /\ /\ lockDepth' = lockDepth - 1
@@ -406,9 +414,9 @@ R_rel(self) == /\ pc[self] = "R_rel"
                /\ rv' = [rv EXCEPT ![self] = Head(stack[self]).rv]
                /\ stack' = [stack EXCEPT ![self] = Tail(stack[self])]
                /\ UNCHANGED << variant, timer, quota, running, handling, gen, 
-                               timeLeft, geHandler, pending, batch, fresh, bit, 
-                               flag, dispatched, appended, returned, ev, rem, 
-                               tl, g, fade, n, h >>
+                               timeLeft, geHandler, pending, batch, ctr, flag, 
+                               dispatched, appended, returned, ev, rem, tl, g, 
+                               fade, n, h >>
 
 reduce(self) == R_acq(self) \/ R_set(self) \/ R_hand(self) \/ R_res(self)
                    \/ R_rel(self)
@@ -421,8 +429,8 @@ T_cond == /\ pc["loop"] = "T_cond"
           /\ pc' = [pc EXCEPT !["loop"] = "T_run"]
           /\ UNCHANGED << variant, timer, quota, lockOwner, lockDepth, running, 
                           handling, gen, timeLeft, geHandler, pending, batch, 
-                          fresh, bit, flag, dispatched, appended, returned, 
-                          stack, ri, rv, ev, rem, tl, g, n, h >>
+                          ctr, flag, dispatched, appended, returned, stack, ri, 
+                          rv, ev, rem, tl, g, n, h >>
 
 T_run == /\ pc["loop"] = "T_run"
          /\ IF running
@@ -430,29 +438,26 @@ T_run == /\ pc["loop"] = "T_run"
                ELSE /\ pc' = [pc EXCEPT !["loop"] = "T_len"]
          /\ UNCHANGED << variant, timer, quota, lockOwner, lockDepth, running, 
                          handling, gen, timeLeft, geHandler, pending, batch, 
-                         fresh, bit, flag, dispatched, appended, returned, 
-                         stack, ri, rv, ev, rem, tl, g, fade, n, h >>
+                         ctr, flag, dispatched, appended, returned, stack, ri, 
+                         rv, ev, rem, tl, g, fade, n, h >>
 
 T_inc == /\ pc["loop"] = "T_inc"
-         /\ fresh' = TRUE
+         /\ ctr' = (IF QLen = 0 /\ Mutant # "counter_reset" THEN 1 ELSE ctr + 1)
          /\ pc' = [pc EXCEPT !["loop"] = "T_fire"]
          /\ UNCHANGED << variant, timer, quota, lockOwner, lockDepth, running, 
                          handling, gen, timeLeft, geHandler, pending, batch, 
-                         bit, flag, dispatched, appended, returned, stack, ri, 
-                         rv, ev, rem, tl, g, fade, n, h >>
+                         flag, dispatched, appended, returned, stack, ri, rv, 
+                         ev, rem, tl, g, fade, n, h >>
 
 T_fire == /\ pc["loop"] = "T_fire"
           /\ LET ng == 1 - gen IN
                /\ gen' = ng
                /\ /\ geHandler' = [geHandler EXCEPT ![ng] = "none"]
                   /\ timeLeft' = [timeLeft EXCEPT ![ng] = -1]
-               /\ LET b == IF fresh THEN 1 - bit ELSE bit IN
-                    /\ pending' = Append(pending, <<"ge", ng, b>>)
-                    /\ bit' = b
-               /\ fresh' = FALSE
+               /\ pending' = Append(pending, <<"ge", ng, ctr>>)
           /\ pc' = [pc EXCEPT !["loop"] = "T_len"]
           /\ UNCHANGED << variant, timer, quota, lockOwner, lockDepth, running, 
-                          handling, batch, flag, dispatched, appended, 
+                          handling, batch, ctr, flag, dispatched, appended, 
                           returned, stack, ri, rv, ev, rem, tl, g, fade, n, h >>
 
 T_len == /\ pc["loop"] = "T_len"
@@ -469,15 +474,15 @@ T_len == /\ pc["loop"] = "T_len"
                                           /\ fade' = fade
          /\ UNCHANGED << variant, timer, quota, lockOwner, lockDepth, running, 
                          handling, gen, timeLeft, geHandler, pending, batch, 
-                         fresh, bit, flag, dispatched, appended, returned, 
-                         stack, ri, rv, ev, rem, tl, g, n, h >>
+                         ctr, flag, dispatched, appended, returned, stack, ri, 
+                         rv, ev, rem, tl, g, n, h >>
 
 D_snap == /\ pc["loop"] = "D_snap"
           /\ batch' = batch \o pending
           /\ pending' = <<>>
           /\ pc' = [pc EXCEPT !["loop"] = "D_pop"]
           /\ UNCHANGED << variant, timer, quota, lockOwner, lockDepth, running, 
-                          handling, gen, timeLeft, geHandler, fresh, bit, flag, 
+                          handling, gen, timeLeft, geHandler, ctr, flag, 
                           dispatched, appended, returned, stack, ri, rv, ev, 
                           rem, tl, g, fade, n, h >>
 
@@ -496,17 +501,17 @@ D_pop == /\ pc["loop"] = "D_pop"
                           ELSE /\ pc' = [pc EXCEPT !["loop"] = "A_lock"]
                     /\ UNCHANGED dispatched
          /\ UNCHANGED << variant, timer, quota, lockOwner, lockDepth, running, 
-                         handling, gen, timeLeft, geHandler, pending, fresh, 
-                         bit, flag, appended, returned, stack, ri, rv, tl, 
-                         fade, n, h >>
+                         handling, gen, timeLeft, geHandler, pending, ctr, 
+                         flag, appended, returned, stack, ri, rv, tl, fade, n, 
+                         h >>
 
 D_set == /\ pc["loop"] = "D_set"
          /\ handling' = Ev
          /\ pc' = [pc EXCEPT !["loop"] = "D_clr"]
          /\ UNCHANGED << variant, timer, quota, lockOwner, lockDepth, running, 
-                         gen, timeLeft, geHandler, pending, batch, fresh, bit, 
-                         flag, dispatched, appended, returned, stack, ri, rv, 
-                         ev, rem, tl, g, fade, n, h >>
+                         gen, timeLeft, geHandler, pending, batch, ctr, flag, 
+                         dispatched, appended, returned, stack, ri, rv, ev, 
+                         rem, tl, g, fade, n, h >>
 
 H_idle == /\ pc["loop"] = "H_idle"
           /\ geHandler' = [geHandler EXCEPT ![g] = "idle"]
@@ -514,9 +519,9 @@ H_idle == /\ pc["loop"] = "H_idle"
                 THEN /\ pc' = [pc EXCEPT !["loop"] = "I_lock"]
                 ELSE /\ pc' = [pc EXCEPT !["loop"] = "P_rd"]
           /\ UNCHANGED << variant, timer, quota, lockOwner, lockDepth, running, 
-                          handling, gen, timeLeft, pending, batch, fresh, bit, 
-                          flag, dispatched, appended, returned, stack, ri, rv, 
-                          ev, rem, tl, g, fade, n, h >>
+                          handling, gen, timeLeft, pending, batch, ctr, flag, 
+                          dispatched, appended, returned, stack, ri, rv, ev, 
+                          rem, tl, g, fade, n, h >>
 
 I_lock == /\ pc["loop"] = "I_lock"
           /\ lockOwner \in {"none", "loop"}
@@ -524,9 +529,9 @@ I_lock == /\ pc["loop"] = "I_lock"
              /\ lockOwner' = "loop"
           /\ pc' = [pc EXCEPT !["loop"] = "I_clr"]
           /\ UNCHANGED << variant, timer, quota, running, handling, gen, 
-                          timeLeft, geHandler, pending, batch, fresh, bit, 
-                          flag, dispatched, appended, returned, stack, ri, rv, 
-                          ev, rem, tl, g, fade, n, h >>
+                          timeLeft, geHandler, pending, batch, ctr, flag, 
+                          dispatched, appended, returned, stack, ri, rv, ev, 
+                          rem, tl, g, fade, n, h >>
 
 I_clr == /\ pc["loop"] = "I_clr"
          /\ IF Mutant \notin {"clear_after_read", "clear_after_lock"}
@@ -536,8 +541,8 @@ I_clr == /\ pc["loop"] = "I_clr"
          /\ pc' = [pc EXCEPT !["loop"] = "I_unl"]
          /\ UNCHANGED << variant, timer, quota, lockOwner, lockDepth, running, 
                          handling, gen, timeLeft, geHandler, pending, batch, 
-                         fresh, bit, dispatched, appended, returned, stack, ri, 
-                         rv, ev, rem, tl, g, fade, n, h >>
+                         ctr, dispatched, appended, returned, stack, ri, rv, 
+                         ev, rem, tl, g, fade, n, h >>
 
 I_unl == /\ pc["loop"] = "I_unl"
          /\ /\ lockDepth' = lockDepth - 1
@@ -546,7 +551,7 @@ I_unl == /\ pc["loop"] = "I_unl"
                THEN /\ pc' = [pc EXCEPT !["loop"] = "I_mclr"]
                ELSE /\ pc' = [pc EXCEPT !["loop"] = "I_rd1"]
          /\ UNCHANGED << variant, timer, quota, running, handling, gen, 
-                         timeLeft, geHandler, pending, batch, fresh, bit, flag, 
+                         timeLeft, geHandler, pending, batch, ctr, flag, 
                          dispatched, appended, returned, stack, ri, rv, ev, 
                          rem, tl, g, fade, n, h >>
 
@@ -555,8 +560,8 @@ I_mclr == /\ pc["loop"] = "I_mclr"
           /\ pc' = [pc EXCEPT !["loop"] = "I_rd1"]
           /\ UNCHANGED << variant, timer, quota, lockOwner, lockDepth, running, 
                           handling, gen, timeLeft, geHandler, pending, batch, 
-                          fresh, bit, dispatched, appended, returned, stack, 
-                          ri, rv, ev, rem, tl, g, fade, n, h >>
+                          ctr, dispatched, appended, returned, stack, ri, rv, 
+                          ev, rem, tl, g, fade, n, h >>
 
 I_rd1 == /\ pc["loop"] = "I_rd1"
          /\ tl' = timeLeft[g]
@@ -565,16 +570,16 @@ I_rd1 == /\ pc["loop"] = "I_rd1"
                ELSE /\ pc' = [pc EXCEPT !["loop"] = "I_rd2"]
          /\ UNCHANGED << variant, timer, quota, lockOwner, lockDepth, running, 
                          handling, gen, timeLeft, geHandler, pending, batch, 
-                         fresh, bit, flag, dispatched, appended, returned, 
-                         stack, ri, rv, ev, rem, g, fade, n, h >>
+                         ctr, flag, dispatched, appended, returned, stack, ri, 
+                         rv, ev, rem, g, fade, n, h >>
 
 I_rd1b == /\ pc["loop"] = "I_rd1b"
           /\ tl' = timeLeft[g]
           /\ pc' = [pc EXCEPT !["loop"] = "I_twait"]
           /\ UNCHANGED << variant, timer, quota, lockOwner, lockDepth, running, 
                           handling, gen, timeLeft, geHandler, pending, batch, 
-                          fresh, bit, flag, dispatched, appended, returned, 
-                          stack, ri, rv, ev, rem, g, fade, n, h >>
+                          ctr, flag, dispatched, appended, returned, stack, ri, 
+                          rv, ev, rem, g, fade, n, h >>
 
 I_twait == /\ pc["loop"] = "I_twait"
            /\ tl = 0 \/ flag > 0 \/ TimeoutOK
@@ -588,8 +593,8 @@ I_twait == /\ pc["loop"] = "I_twait"
            /\ pc' = [pc EXCEPT !["loop"] = "R_acq"]
            /\ UNCHANGED << variant, timer, quota, lockOwner, lockDepth, 
                            running, handling, gen, timeLeft, geHandler, 
-                           pending, batch, fresh, bit, flag, dispatched, 
-                           appended, returned, ev, rem, tl, g, fade, n, h >>
+                           pending, batch, ctr, flag, dispatched, appended, 
+                           returned, ev, rem, tl, g, fade, n, h >>
 
 I_rd2 == /\ pc["loop"] = "I_rd2"
          /\ IF timeLeft[g] < 0
@@ -599,32 +604,32 @@ I_rd2 == /\ pc["loop"] = "I_rd2"
                ELSE /\ pc' = [pc EXCEPT !["loop"] = "D_clr"]
          /\ UNCHANGED << variant, timer, quota, lockOwner, lockDepth, running, 
                          handling, gen, timeLeft, geHandler, pending, batch, 
-                         fresh, bit, flag, dispatched, appended, returned, 
-                         stack, ri, rv, ev, rem, tl, g, fade, n, h >>
+                         ctr, flag, dispatched, appended, returned, stack, ri, 
+                         rv, ev, rem, tl, g, fade, n, h >>
 
 I_wait == /\ pc["loop"] = "I_wait"
           /\ flag > 0
           /\ pc' = [pc EXCEPT !["loop"] = "I_rd2"]
           /\ UNCHANGED << variant, timer, quota, lockOwner, lockDepth, running, 
                           handling, gen, timeLeft, geHandler, pending, batch, 
-                          fresh, bit, flag, dispatched, appended, returned, 
-                          stack, ri, rv, ev, rem, tl, g, fade, n, h >>
+                          ctr, flag, dispatched, appended, returned, stack, ri, 
+                          rv, ev, rem, tl, g, fade, n, h >>
 
 I_mclr2 == /\ pc["loop"] = "I_mclr2"
            /\ flag' = 0
            /\ pc' = [pc EXCEPT !["loop"] = "I_wait"]
            /\ UNCHANGED << variant, timer, quota, lockOwner, lockDepth, 
                            running, handling, gen, timeLeft, geHandler, 
-                           pending, batch, fresh, bit, dispatched, appended, 
-                           returned, stack, ri, rv, ev, rem, tl, g, fade, n, h >>
+                           pending, batch, ctr, dispatched, appended, returned, 
+                           stack, ri, rv, ev, rem, tl, g, fade, n, h >>
 
 P_rd == /\ pc["loop"] = "P_rd"
         /\ tl' = timeLeft[g]
         /\ pc' = [pc EXCEPT !["loop"] = "P_sel"]
         /\ UNCHANGED << variant, timer, quota, lockOwner, lockDepth, running, 
                         handling, gen, timeLeft, geHandler, pending, batch, 
-                        fresh, bit, flag, dispatched, appended, returned, 
-                        stack, ri, rv, ev, rem, g, fade, n, h >>
+                        ctr, flag, dispatched, appended, returned, stack, ri, 
+                        rv, ev, rem, g, fade, n, h >>
 
 P_sel == /\ pc["loop"] = "P_sel"
          /\ tl = 0 \/ flag > 0 \/ (tl > 0 /\ TimeoutOK)
@@ -633,24 +638,24 @@ P_sel == /\ pc["loop"] = "P_sel"
                ELSE /\ pc' = [pc EXCEPT !["loop"] = "D_clr"]
          /\ UNCHANGED << variant, timer, quota, lockOwner, lockDepth, running, 
                          handling, gen, timeLeft, geHandler, pending, batch, 
-                         fresh, bit, flag, dispatched, appended, returned, 
-                         stack, ri, rv, ev, rem, tl, g, fade, n, h >>
+                         ctr, flag, dispatched, appended, returned, stack, ri, 
+                         rv, ev, rem, tl, g, fade, n, h >>
 
 P_drain == /\ pc["loop"] = "P_drain"
            /\ flag' = flag - 1
            /\ pc' = [pc EXCEPT !["loop"] = "D_clr"]
            /\ UNCHANGED << variant, timer, quota, lockOwner, lockDepth, 
                            running, handling, gen, timeLeft, geHandler, 
-                           pending, batch, fresh, bit, dispatched, appended, 
-                           returned, stack, ri, rv, ev, rem, tl, g, fade, n, h >>
+                           pending, batch, ctr, dispatched, appended, returned, 
+                           stack, ri, rv, ev, rem, tl, g, fade, n, h >>
 
 M_set == /\ pc["loop"] = "M_set"
          /\ handling' = g
          /\ pc' = [pc EXCEPT !["loop"] = "M_test"]
          /\ UNCHANGED << variant, timer, quota, lockOwner, lockDepth, running, 
-                         gen, timeLeft, geHandler, pending, batch, fresh, bit, 
-                         flag, dispatched, appended, returned, stack, ri, rv, 
-                         ev, rem, tl, g, fade, n, h >>
+                         gen, timeLeft, geHandler, pending, batch, ctr, flag, 
+                         dispatched, appended, returned, stack, ri, rv, ev, 
+                         rem, tl, g, fade, n, h >>
 
 M_test == /\ pc["loop"] = "M_test"
           /\ IF rem > 0 \/ QLen > 0 \/ ~running
@@ -666,8 +671,8 @@ M_test == /\ pc["loop"] = "M_test"
                      /\ UNCHANGED << stack, ri, rv >>
           /\ UNCHANGED << variant, timer, quota, lockOwner, lockDepth, running, 
                           handling, gen, timeLeft, geHandler, pending, batch, 
-                          fresh, bit, flag, dispatched, appended, returned, ev, 
-                          rem, tl, g, fade, n, h >>
+                          ctr, flag, dispatched, appended, returned, ev, rem, 
+                          tl, g, fade, n, h >>
 
 M_end == /\ pc["loop"] = "M_end"
          /\ IF timer
@@ -675,8 +680,8 @@ M_end == /\ pc["loop"] = "M_end"
                ELSE /\ pc' = [pc EXCEPT !["loop"] = "H_idle"]
          /\ UNCHANGED << variant, timer, quota, lockOwner, lockDepth, running, 
                          handling, gen, timeLeft, geHandler, pending, batch, 
-                         fresh, bit, flag, dispatched, appended, returned, 
-                         stack, ri, rv, ev, rem, tl, g, fade, n, h >>
+                         ctr, flag, dispatched, appended, returned, stack, ri, 
+                         rv, ev, rem, tl, g, fade, n, h >>
 
 A_lock == /\ pc["loop"] = "A_lock"
           /\ lockOwner \in {"none", "loop"}
@@ -684,17 +689,17 @@ A_lock == /\ pc["loop"] = "A_lock"
              /\ lockOwner' = "loop"
           /\ pc' = [pc EXCEPT !["loop"] = "A_set"]
           /\ UNCHANGED << variant, timer, quota, running, handling, gen, 
-                          timeLeft, geHandler, pending, batch, fresh, bit, 
-                          flag, dispatched, appended, returned, stack, ri, rv, 
-                          ev, rem, tl, g, fade, n, h >>
+                          timeLeft, geHandler, pending, batch, ctr, flag, 
+                          dispatched, appended, returned, stack, ri, rv, ev, 
+                          rem, tl, g, fade, n, h >>
 
 A_set == /\ pc["loop"] = "A_set"
          /\ handling' = g
          /\ pc' = [pc EXCEPT !["loop"] = "A_test"]
          /\ UNCHANGED << variant, timer, quota, lockOwner, lockDepth, running, 
-                         gen, timeLeft, geHandler, pending, batch, fresh, bit, 
-                         flag, dispatched, appended, returned, stack, ri, rv, 
-                         ev, rem, tl, g, fade, n, h >>
+                         gen, timeLeft, geHandler, pending, batch, ctr, flag, 
+                         dispatched, appended, returned, stack, ri, rv, ev, 
+                         rem, tl, g, fade, n, h >>
 
 A_test == /\ pc["loop"] = "A_test"
           /\ IF rem > 0 \/ (Mutant # "no_qlen" /\ QLen > 0) \/ ~running
@@ -710,8 +715,8 @@ A_test == /\ pc["loop"] = "A_test"
                      /\ UNCHANGED << stack, ri, rv >>
           /\ UNCHANGED << variant, timer, quota, lockOwner, lockDepth, running, 
                           handling, gen, timeLeft, geHandler, pending, batch, 
-                          fresh, bit, flag, dispatched, appended, returned, ev, 
-                          rem, tl, g, fade, n, h >>
+                          ctr, flag, dispatched, appended, returned, ev, rem, 
+                          tl, g, fade, n, h >>
 
 A_unl == /\ pc["loop"] = "A_unl"
          /\ /\ lockDepth' = lockDepth - 1
@@ -720,7 +725,7 @@ A_unl == /\ pc["loop"] = "A_unl"
                THEN /\ pc' = [pc EXCEPT !["loop"] = "H_tim"]
                ELSE /\ pc' = [pc EXCEPT !["loop"] = "H_idle"]
          /\ UNCHANGED << variant, timer, quota, running, handling, gen, 
-                         timeLeft, geHandler, pending, batch, fresh, bit, flag, 
+                         timeLeft, geHandler, pending, batch, ctr, flag, 
                          dispatched, appended, returned, stack, ri, rv, ev, 
                          rem, tl, g, fade, n, h >>
 
@@ -728,9 +733,9 @@ H_tim == /\ pc["loop"] = "H_tim"
          /\ geHandler' = [geHandler EXCEPT ![g] = "timer"]
          /\ pc' = [pc EXCEPT !["loop"] = "H_low"]
          /\ UNCHANGED << variant, timer, quota, lockOwner, lockDepth, running, 
-                         handling, gen, timeLeft, pending, batch, fresh, bit, 
-                         flag, dispatched, appended, returned, stack, ri, rv, 
-                         ev, rem, tl, g, fade, n, h >>
+                         handling, gen, timeLeft, pending, batch, ctr, flag, 
+                         dispatched, appended, returned, stack, ri, rv, ev, 
+                         rem, tl, g, fade, n, h >>
 
 H_low == /\ pc["loop"] = "H_low"
          /\ \/ /\ /\ ri' = [ri EXCEPT !["loop"] = g]
@@ -746,50 +751,84 @@ H_low == /\ pc["loop"] = "H_low"
                /\ UNCHANGED <<stack, ri, rv>>
          /\ UNCHANGED << variant, timer, quota, lockOwner, lockDepth, running, 
                          handling, gen, timeLeft, geHandler, pending, batch, 
-                         fresh, bit, flag, dispatched, appended, returned, ev, 
-                         rem, tl, g, fade, n, h >>
+                         ctr, flag, dispatched, appended, returned, ev, rem, 
+                         tl, g, fade, n, h >>
 
 D_clr == /\ pc["loop"] = "D_clr"
          /\ handling' = None
          /\ IF batch # <<>>
                THEN /\ pc' = [pc EXCEPT !["loop"] = "D_pop"]
                     /\ fade' = fade
-               ELSE /\ IF fade = 0
-                          THEN /\ pc' = [pc EXCEPT !["loop"] = "T_cond"]
+               ELSE /\ IF Mutant = "counter_reset"
+                          THEN /\ pc' = [pc EXCEPT !["loop"] = "D_chk"]
                                /\ fade' = fade
-                          ELSE /\ IF fade < 4
-                                     THEN /\ fade' = fade + 1
-                                          /\ pc' = [pc EXCEPT !["loop"] = "T_run"]
-                                     ELSE /\ pc' = [pc EXCEPT !["loop"] = "Done"]
+                          ELSE /\ IF fade = 0
+                                     THEN /\ pc' = [pc EXCEPT !["loop"] = "T_cond"]
                                           /\ fade' = fade
+                                     ELSE /\ IF fade < 4
+                                                THEN /\ fade' = fade + 1
+                                                     /\ pc' = [pc EXCEPT !["loop"] = "T_run"]
+                                                ELSE /\ pc' = [pc EXCEPT !["loop"] = "Done"]
+                                                     /\ fade' = fade
          /\ UNCHANGED << variant, timer, quota, lockOwner, lockDepth, running, 
-                         gen, timeLeft, geHandler, pending, batch, fresh, bit, 
+                         gen, timeLeft, geHandler, pending, batch, ctr, flag, 
+                         dispatched, appended, returned, stack, ri, rv, ev, 
+                         rem, tl, g, n, h >>
+
+D_chk == /\ pc["loop"] = "D_chk"
+         /\ IF Len(pending) = 0
+               THEN /\ pc' = [pc EXCEPT !["loop"] = "D_rst"]
+               ELSE /\ pc' = [pc EXCEPT !["loop"] = "D_end"]
+         /\ UNCHANGED << variant, timer, quota, lockOwner, lockDepth, running, 
+                         handling, gen, timeLeft, geHandler, pending, batch, 
+                         ctr, flag, dispatched, appended, returned, stack, ri, 
+                         rv, ev, rem, tl, g, fade, n, h >>
+
+D_rst == /\ pc["loop"] = "D_rst"
+         /\ ctr' = -1
+         /\ pc' = [pc EXCEPT !["loop"] = "D_end"]
+         /\ UNCHANGED << variant, timer, quota, lockOwner, lockDepth, running, 
+                         handling, gen, timeLeft, geHandler, pending, batch, 
                          flag, dispatched, appended, returned, stack, ri, rv, 
-                         ev, rem, tl, g, n, h >>
+                         ev, rem, tl, g, fade, n, h >>
+
+D_end == /\ pc["loop"] = "D_end"
+         /\ IF fade = 0
+               THEN /\ pc' = [pc EXCEPT !["loop"] = "T_cond"]
+                    /\ fade' = fade
+               ELSE /\ IF fade < 4
+                          THEN /\ fade' = fade + 1
+                               /\ pc' = [pc EXCEPT !["loop"] = "T_run"]
+                          ELSE /\ pc' = [pc EXCEPT !["loop"] = "Done"]
+                               /\ fade' = fade
+         /\ UNCHANGED << variant, timer, quota, lockOwner, lockDepth, running, 
+                         handling, gen, timeLeft, geHandler, pending, batch, 
+                         ctr, flag, dispatched, appended, returned, stack, ri, 
+                         rv, ev, rem, tl, g, n, h >>
 
 loop == T_cond \/ T_run \/ T_inc \/ T_fire \/ T_len \/ D_snap \/ D_pop
            \/ D_set \/ H_idle \/ I_lock \/ I_clr \/ I_unl \/ I_mclr
            \/ I_rd1 \/ I_rd1b \/ I_twait \/ I_rd2 \/ I_wait \/ I_mclr2
            \/ P_rd \/ P_sel \/ P_drain \/ M_set \/ M_test \/ M_end
            \/ A_lock \/ A_set \/ A_test \/ A_unl \/ H_tim \/ H_low \/ D_clr
+           \/ D_chk \/ D_rst \/ D_end
 
 F_next(self) == /\ pc[self] = "F_next"
                 /\ IF n[self] < Quota(self)
                       THEN /\ n' = [n EXCEPT ![self] = n[self] + 1]
                            /\ IF Mutant = "append_before_lock"
-                                 THEN /\ pending' = Append(pending, <<self, n'[self], 1 - bit>>)
-                                      /\ bit' = 1 - bit
-                                      /\ fresh' = FALSE
+                                 THEN /\ LET c == IF QLen = 0 THEN 1 ELSE ctr + 1 IN
+                                           /\ pending' = Append(pending, <<self, n'[self], c>>)
+                                           /\ ctr' = c
                                       /\ appended' = [appended EXCEPT ![self] = n'[self]]
                                  ELSE /\ TRUE
-                                      /\ UNCHANGED << pending, fresh, bit, 
-                                                      appended >>
+                                      /\ UNCHANGED << pending, ctr, appended >>
                            /\ IF self \in Stoppers
                                  THEN /\ AllDispatched
                                       /\ pc' = [pc EXCEPT ![self] = "S_stop"]
                                  ELSE /\ pc' = [pc EXCEPT ![self] = "F_lock"]
                       ELSE /\ pc' = [pc EXCEPT ![self] = "Done"]
-                           /\ UNCHANGED << pending, fresh, bit, appended, n >>
+                           /\ UNCHANGED << pending, ctr, appended, n >>
                 /\ UNCHANGED << variant, timer, quota, lockOwner, lockDepth, 
                                 running, handling, gen, timeLeft, geHandler, 
                                 batch, flag, dispatched, returned, stack, ri, 
@@ -801,40 +840,37 @@ F_lock(self) == /\ pc[self] = "F_lock"
                    /\ lockOwner' = self
                 /\ pc' = [pc EXCEPT ![self] = "F_rdh"]
                 /\ UNCHANGED << variant, timer, quota, running, handling, gen, 
-                                timeLeft, geHandler, pending, batch, fresh, 
-                                bit, flag, dispatched, appended, returned, 
-                                stack, ri, rv, ev, rem, tl, g, fade, n, h >>
+                                timeLeft, geHandler, pending, batch, ctr, flag, 
+                                dispatched, appended, returned, stack, ri, rv, 
+                                ev, rem, tl, g, fade, n, h >>
 
 F_rdh(self) == /\ pc[self] = "F_rdh"
                /\ h' = [h EXCEPT ![self] = handling]
                /\ pc' = [pc EXCEPT ![self] = "F_inc"]
                /\ UNCHANGED << variant, timer, quota, lockOwner, lockDepth, 
                                running, handling, gen, timeLeft, geHandler, 
-                               pending, batch, fresh, bit, flag, dispatched, 
-                               appended, returned, stack, ri, rv, ev, rem, tl, 
-                               g, fade, n >>
+                               pending, batch, ctr, flag, dispatched, appended, 
+                               returned, stack, ri, rv, ev, rem, tl, g, fade, 
+                               n >>
 
 F_inc(self) == /\ pc[self] = "F_inc"
                /\ IF Mutant \notin {"append_before_lock", "append_after_lock"}
-                     THEN /\ fresh' = TRUE
+                     THEN /\ ctr' = (IF QLen = 0 /\ Mutant # "counter_reset" THEN 1 ELSE ctr + 1)
                      ELSE /\ TRUE
-                          /\ fresh' = fresh
+                          /\ ctr' = ctr
                /\ pc' = [pc EXCEPT ![self] = "F_app"]
                /\ UNCHANGED << variant, timer, quota, lockOwner, lockDepth, 
                                running, handling, gen, timeLeft, geHandler, 
-                               pending, batch, bit, flag, dispatched, appended, 
+                               pending, batch, flag, dispatched, appended, 
                                returned, stack, ri, rv, ev, rem, tl, g, fade, 
                                n, h >>
 
 F_app(self) == /\ pc[self] = "F_app"
                /\ IF Mutant \notin {"append_before_lock", "append_after_lock"}
-                     THEN /\ LET b == IF fresh THEN 1 - bit ELSE bit IN
-                               /\ pending' = Append(pending, <<self, n[self], b>>)
-                               /\ bit' = b
-                          /\ fresh' = FALSE
+                     THEN /\ pending' = Append(pending, <<self, n[self], ctr>>)
                           /\ appended' = [appended EXCEPT ![self] = n[self]]
                      ELSE /\ TRUE
-                          /\ UNCHANGED << pending, fresh, bit, appended >>
+                          /\ UNCHANGED << pending, appended >>
                /\ IF h[self] \in {0, 1}
                      THEN /\ /\ ri' = [ri EXCEPT ![self] = h[self]]
                              /\ rv' = [rv EXCEPT ![self] = 0]
@@ -848,8 +884,8 @@ F_app(self) == /\ pc[self] = "F_app"
                           /\ UNCHANGED << stack, ri, rv >>
                /\ UNCHANGED << variant, timer, quota, lockOwner, lockDepth, 
                                running, handling, gen, timeLeft, geHandler, 
-                               batch, flag, dispatched, returned, ev, rem, tl, 
-                               g, fade, n, h >>
+                               batch, ctr, flag, dispatched, returned, ev, rem, 
+                               tl, g, fade, n, h >>
 
 F_unl(self) == /\ pc[self] = "F_unl"
                /\ /\ lockDepth' = lockDepth - 1
@@ -861,14 +897,14 @@ F_unl(self) == /\ pc[self] = "F_unl"
                      ELSE /\ returned' = [returned EXCEPT ![self] = n[self]]
                           /\ pc' = [pc EXCEPT ![self] = "F_next"]
                /\ UNCHANGED << variant, timer, quota, running, handling, gen, 
-                               timeLeft, geHandler, pending, batch, fresh, bit, 
-                               flag, dispatched, appended, stack, ri, rv, ev, 
-                               rem, tl, g, fade, n >>
+                               timeLeft, geHandler, pending, batch, ctr, flag, 
+                               dispatched, appended, stack, ri, rv, ev, rem, 
+                               tl, g, fade, n >>
 
 F_mapp(self) == /\ pc[self] = "F_mapp"
-                /\ pending' = Append(pending, <<self, n[self], 1 - bit>>)
-                /\ bit' = 1 - bit
-                /\ fresh' = FALSE
+                /\ LET c == IF QLen = 0 THEN 1 ELSE ctr + 1 IN
+                     /\ pending' = Append(pending, <<self, n[self], c>>)
+                     /\ ctr' = c
                 /\ appended' = [appended EXCEPT ![self] = n[self]]
                 /\ returned' = [returned EXCEPT ![self] = n[self]]
                 /\ pc' = [pc EXCEPT ![self] = "F_next"]
@@ -882,7 +918,7 @@ S_stop(self) == /\ pc[self] = "S_stop"
                 /\ pc' = [pc EXCEPT ![self] = "F_lock"]
                 /\ UNCHANGED << variant, timer, quota, lockOwner, lockDepth, 
                                 handling, gen, timeLeft, geHandler, pending, 
-                                batch, fresh, bit, flag, dispatched, appended, 
+                                batch, ctr, flag, dispatched, appended, 
                                 returned, stack, ri, rv, ev, rem, tl, g, fade, 
                                 n, h >>
 
@@ -927,8 +963,7 @@ InitIdle ==
         /\ geHandler = [i \in {0, 1} |-> IF i = 0 THEN "idle" ELSE "none"]
         /\ pending = <<>>
         /\ batch = <<>>
-        /\ fresh = TRUE
-        /\ bit = 0
+        /\ ctr = 0
         /\ flag = 0
         /\ dispatched = <<>>
         /\ appended = [f \in Threads |-> 0]
@@ -981,7 +1016,7 @@ TypeOK == /\ lockOwner \in {"none", "loop"} \cup Threads
           /\ flag \in 0..(Cardinality(Firers) * MaxFires + 2)
           /\ (variant = "fallback" => flag \in {0, 1})
           /\ variant \in Variants /\ timer \in Timers /\ quota \in Quotas
-          /\ fresh \in BOOLEAN /\ bit \in {0, 1} /\ Cardinality(Lead) <= 2
+          /\ ctr \in Int /\ ctr >= -1 /\ (Mutant = "none" => Cardinality(Lead) <= 2)
 
 (* liveness: under weak fairness of every thread (strong for the lock), with
    the timeouts restricted by TimeoutOK, every fired event is dispatched, and
